@@ -57,6 +57,7 @@ const (
 // scen is one closed harness program.
 type scen struct {
 	closerMgr bool   // RunnerCloserManager (else plain RunnerManager)
+	supply    byte   // how the runners reach the manager: 0 all through the constructor, 'a' all through Add before Run, 's' the first through the constructor, the rest through Add
 	runners   string // per runner, at once: 'n' return nil, 'e' an error, 'c' context.Canceled, 'w' a wrapped Canceled; wait for ctx then return: 'N' nil, 'E' an error, 'C' context.Canceled, 'W' a wrapped Canceled
 	closers   string // per closer registered before Run: 'n' nil, 'e' an error, 'p' parks until a harness thread releases it (then nil), 'f' returns only after the fatal function ran
 	grace     byte   // '-' unset (nil), 'g' generous (10s), 's' short (1s), 'x' 1s, exceeded by an 'f' closer
@@ -76,6 +77,12 @@ func (s scen) name() string {
 		k = "RunnerCloserManager"
 	}
 	n := fmt.Sprintf("%s runners=%q", k, s.runners)
+	switch s.supply {
+	case 'a':
+		n += " supplied-by-Add"
+	case 's':
+		n += " supplied-by-constructor+Add"
+	}
 	if s.closerMgr {
 		n += fmt.Sprintf(" closers=%q grace=%c close=%c", s.closers, s.grace, s.close)
 		if s.addCloser != '-' {
@@ -283,6 +290,15 @@ func mkExec(s scen) *mc.Exec {
 			}
 			return f
 		}
+		ctorFns, addFns := fns, []concurrency.Runner(nil)
+		switch s.supply {
+		case 'a':
+			ctorFns, addFns = nil, fns
+		case 's':
+			// separate backing arrays: NewRunnerManager keeps the caller's slice
+			// and Add appends to it in place
+			ctorFns, addFns = append([]concurrency.Runner(nil), fns[:1]...), append([]concurrency.Runner(nil), fns[1:]...)
+		}
 		var m manager
 		var cm *concurrency.RunnerCloserManager
 		if s.closerMgr {
@@ -295,7 +311,7 @@ func mkExec(s scen) *mc.Exec {
 				grace = graceShort
 				gp = &grace
 			}
-			cm = concurrency.NewRunnerCloserManager(nopLogger{}, gp, fns...)
+			cm = concurrency.NewRunnerCloserManager(nopLogger{}, gp, ctorFns...)
 			if gp != nil {
 				cm.WithFatalShutdown(func() {
 					fatalCount++
@@ -318,7 +334,13 @@ func mkExec(s scen) *mc.Exec {
 			}
 			m = cm
 		} else {
-			m = concurrency.NewRunnerManager(fns...)
+			m = concurrency.NewRunnerManager(ctorFns...)
+		}
+		if len(addFns) > 0 {
+			// before Run (and before any Close): must be accepted
+			if err := m.Add(addFns...); err != nil {
+				mc.Fail("[key=Add-before-Run-refused] Add before Run returned %v", err)
+			}
 		}
 		doRun := func(name string) {
 			c := &callRec{name: name, start: tick(), step: mc.Step()}
@@ -966,6 +988,33 @@ func scenarios() []hx.Scenario {
 						}
 						quick := in(t, "", "n", "N") && in(cl, "", "e", "f") && cm != '2'
 						add(sc, rcm, true, 3, 4, !quick)
+					}
+				}
+			}
+		}
+	}
+	// G6 how the runners are supplied: all through Add before Run, or split
+	// between the constructor and Add (the default everywhere else: constructor)
+	for _, sup := range []byte{'a', 's'} {
+		for _, t := range []string{"n", "N", "E", "eN", "cE", "NE", "wN", "nEW"} {
+			if sup == 's' && len(t) < 2 {
+				continue
+			}
+			for _, par := range []bool{false, true} {
+				sc := scen{runners: t, parent: par, supply: sup}
+				if hasTrigger(sc) {
+					add(sc, rm, false, 2, 2, len(t) > 2 || !in(t, "N", "eN", "NE"))
+				}
+				for _, cl := range []string{"", "e"} {
+					for _, g := range []byte{'-', 'g'} {
+						for _, cm := range closeModes {
+							sc := scen{closerMgr: true, runners: t, closers: cl, grace: g, close: cm, parent: par, supply: sup}
+							if !hasTrigger(sc) {
+								continue
+							}
+							quick := in(t, "N", "NE") && cl == "" && g == '-' && (cm == '1' || cm == '-' || cm == 'b')
+							add(sc, rcm, true, 3, 4, !quick)
+						}
 					}
 				}
 			}
